@@ -103,6 +103,7 @@ func (a *Agent) Start(p pool.Pool) error {
 		a.mu.Unlock()
 		return ErrAlreadyStarted
 	}
+	a.started = true
 	a.mu.Unlock()
 
 	startCtx, cancel := context.WithTimeout(context.Background(), startTimeout)
@@ -110,6 +111,7 @@ func (a *Agent) Start(p pool.Pool) error {
 
 	enode, err := a.EthNode.Enode(startCtx)
 	if err != nil {
+		a.setStarted(false)
 		return err
 	}
 	ua := a.EthNode.UserAgent()
@@ -129,6 +131,7 @@ func (a *Agent) Start(p pool.Pool) error {
 	a.nodeInfo = connectReq.NodeInfo
 	resp, err := p.Connect(startCtx, connectReq)
 	if err != nil {
+		a.setStarted(false)
 		return AgentPoolError{err, "Failed during pool connect request"}
 	}
 	logger.Printf("Registered on pool: Version %s", resp.PoolVersion)
@@ -138,6 +141,7 @@ func (a *Agent) Start(p pool.Pool) error {
 	}
 
 	if err := a.UpdatePeers(startCtx, p); err != nil {
+		a.setStarted(false)
 		return err
 	}
 
@@ -145,6 +149,13 @@ func (a *Agent) Start(p pool.Pool) error {
 		a.waitCh <- a.serveUpdates(p)
 	}()
 	return nil
+}
+
+// setStarted records whether the update loop is running (or about to be).
+func (a *Agent) setStarted(started bool) {
+	a.mu.Lock()
+	a.started = started
+	a.mu.Unlock()
 }
 
 // Whitelist a peer for this node.
@@ -167,6 +178,9 @@ func (a *Agent) Wait() error {
 }
 
 func (a *Agent) serveUpdates(p pool.Pool) error {
+	// However the loop ends, the agent can be started again afterwards.
+	defer a.setStarted(false)
+
 	interval := a.UpdateInterval
 	if interval == 0 {
 		interval = store.KeepaliveInterval
@@ -180,10 +194,6 @@ func (a *Agent) serveUpdates(p pool.Pool) error {
 				return err
 			}
 		case <-a.stopCh:
-			a.mu.Lock()
-			a.started = false
-			a.mu.Unlock()
-
 			// FIXME: Does it make sense to call a.disconnectPeers(...) here?
 			return nil
 		}
